@@ -1,7 +1,132 @@
-(* API commands for the Scale package (stub until the package lands). *)
-From Coq Require Import ZArith List.
-From Labella Require Import Extract.Codec.
+(* API commands 200..299: linear scale (C12: 200-229, C13: 230-259, C14: 260-289). *)
+From Coq Require Import ZArith QArith List Bool.
+From Labella Require Import Extract.Codec Scale.Linear Scale.Ticks Scale.Nice Scale.ScaleState Scale.Band.
 Import ListNotations.
 Open Scope Z_scope.
 
-Definition api_scale (cmd : Z) (a : list Z) : list Z := bad_input.
+Definition e_z (z : Z) : list Z := [z].
+Definition e_cell (c : cell) : list Z := e_q (fst c) ++ e_q (snd c).
+Definition d_cell : dec cell := d_pair d_q d_q.
+
+(* 200: clamp a b r0 r1 x y  ->  scale(x) invert(y) *)
+Definition api_point (a : list Z) : list Z :=
+  match d_bool a with
+  | Some (c, a1) =>
+    match d_rep d_q 6 a1 with
+    | Some ([da; db; r0; r1; x; y], _) =>
+        1 :: e_q (lin_gen c da db r0 r1 x) ++ e_q (inv_gen c da db r0 r1 y)
+    | _ => bad_input
+    end
+  | None => bad_input
+  end.
+
+(* operations: 0 New | 1 AllocR r0 r1 | 2 Domain s a b | 3 Range s c
+               | 4 Clamp s b | 5 Nice s m | 6 Copy s *)
+Definition d_op : dec op := fun l =>
+  match l with
+  | 0 :: r => Some (ONew, r)
+  | 1 :: r => match d_cell r with Some (c, r') => Some (OAllocR c, r') | None => None end
+  | 2 :: r => match d_pair d_nat d_cell r with Some ((s, c), r') => Some (ODomain s c, r') | None => None end
+  | 3 :: r => match d_pair d_nat d_nat r with Some ((s, c), r') => Some (ORange s c, r') | None => None end
+  | 4 :: r => match d_pair d_nat d_bool r with Some ((s, b), r') => Some (OClamp s b, r') | None => None end
+  | 5 :: r => match d_pair d_nat d_z r with Some ((s, m), r') => Some (ONice s m, r') | None => None end
+  | 6 :: r => match d_nat r with Some (s, r') => Some (OCopy s, r') | None => None end
+  | _ => None
+  end.
+
+Definition e_answer (a : answer) : list Z :=
+  match a with
+  | ANum q => 1 :: e_q q
+  | APair c => 2 :: e_cell c
+  | AFlag b => 3 :: e_bool b
+  | AInvalid => [0]
+  end.
+
+(* everything observable of every scale: domain, range, clamp, s(x), s.invert(y) *)
+Definition observe_all (st : state) (xs ys : list Q) : list Z :=
+  e_list (fun i =>
+            e_answer (observe st i QDomain) ++ e_answer (observe st i QRange)
+            ++ e_answer (observe st i QClamp)
+            ++ flat_map (fun x => e_answer (observe st i (QCall x))) xs
+            ++ flat_map (fun y => e_answer (observe st i (QInvert y))) ys)
+         (seq 0 (length (scales st))).
+
+(* tie only: was this step a nice() inside the ambiguity band (Scale/Band.v)? *)
+Definition step_sensitive (st : state) (o : op) : bool :=
+  match o with
+  | ONice i m =>
+      match nth_error (scales st) i with
+      | Some s => match nth_error (dheap st) (dom s) with
+                  | Some d => nice_sensitive m d
+                  | None => false
+                  end
+      | None => false
+      end
+  | _ => false
+  end.
+
+Fixpoint run_observe (ops : list op) (st : state) (xs ys : list Q) : list Z :=
+  match ops with
+  | [] => []
+  | o :: rest =>
+      let st' := step st o in
+      e_bool (step_sensitive st o) ++ observe_all st' xs ys ++ run_observe rest st' xs ys
+  end.
+
+(* 201: xs ys ops -> after every step: band flag, observations *)
+Definition api_history (a : list Z) : list Z :=
+  match d_list d_q a with
+  | Some (xs, a1) =>
+    match d_list d_q a1 with
+    | Some (ys, a2) =>
+      match d_list d_op a2 with
+      | Some (ops, _) => 1 :: run_observe ops init xs ys
+      | None => bad_input
+      end
+    | None => bad_input
+    end
+  | None => bad_input
+  end.
+
+(* 230: a b m -> ok step err decimals ticks texts
+   (err is the quantity compared with the thresholds, for the ambiguity band) *)
+Definition api_ticks (a : list Z) : list Z :=
+  match d_pair (d_pair d_q d_q) d_z a with
+  | Some ((da, db, m), _) =>
+      match ticks_opt da db m with
+      | Some l =>
+          let n := decimals (dom_step da db m) in
+          1 :: e_q (dom_step da db m) ++ e_q (tick_err (span_of da db) m) ++ [n]
+            ++ e_list e_q l ++ e_list e_z (map (fmt n) l)
+      | None => [0]
+      end
+  | None => bad_input
+  end.
+
+(* 231: q -> ilog10 q (0 if the search ran out of fuel) *)
+Definition api_ilog (a : list Z) : list Z :=
+  match d_q a with
+  | Some (q, _) => match ilog10_opt q with Some e => [1; e] | None => [0] end
+  | None => bad_input
+  end.
+
+(* 260: a b m -> nice domain, step of pass one, of pass two, of the result,
+   the domain after pass one, and (tie only) the band alternatives *)
+Definition api_nice (a : list Z) : list Z :=
+  match d_pair (d_pair d_q d_q) d_z a with
+  | Some ((da, db, m), _) =>
+      let d := (da, db) in
+      1 :: e_cell (nice m d) ++ e_q (step1 m d) ++ e_q (step2 m d) ++ e_q (step_result m d)
+           ++ e_cell (nice_pass m d) ++ e_list e_cell (nice_alts m d)
+  | None => bad_input
+  end.
+
+Definition api_scale (cmd : Z) (a : list Z) : list Z :=
+  match cmd with
+  | 200 => api_point a
+  | 201 => api_history a
+  | 230 => api_ticks a
+  | 231 => api_ilog a
+  | 260 => api_nice a
+  | _ => bad_input
+  end.
